@@ -100,6 +100,7 @@ func Reset() {
 		syscall.Close(tw)
 	}
 	Events = Events[:0]
+	EventsDropped = false
 	BadCloses = nil
 	for k := range epollKeys {
 		delete(epollKeys, k)
@@ -155,8 +156,10 @@ func ev(name string, fd, n int, err syscall.Errno, arg int) {
 		return
 	}
 	simrt.RaceDisable()
-	if len(Events) < 20000 {
+	if len(Events) < 250000 { // more than any scenario's step cap allows: oracles read this log and must see all of it
 		Events = append(Events, Event{Step: simrt.Step(), Task: simrt.CurrentTaskID(), Name: name, FD: fd, N: n, Err: err, Arg: arg})
+	} else {
+		EventsDropped = true
 	}
 	simrt.RaceEnable()
 }
@@ -703,6 +706,9 @@ func sendv(fd int, trap, a1 uintptr, iov *syscall.Iovec, cnt, total int, mh *sys
 	}
 	return r, e
 }
+
+// EventsDropped is set when the event log overflowed (never with the step caps in use).
+var EventsDropped bool
 
 // epollKeys maps the user data of a registration to the descriptor it was made for.
 var epollKeys = map[[8]byte]int{}
